@@ -9,28 +9,31 @@ variable (cfg : Cfg)
 
 def REQUEST_URI_NOT_SEEN : Bytes := (b!"/libhtp::request_uri_not_seen")
 
+/-- "Unable to match response to request": a transaction is made up for the response -/
+def resIdleUnmatched (c : Conn) : R :=
+  let (c, u) := txCreate cfg c
+  (match u with
+   | none => ({ c with out := { c.out with tx := none } }, .error)
+   | some uid =>
+     let c := { c with out := { c.out with tx := some uid } }
+     let c := c.modTx uid (fun t => { t with uriNorm := some { path := some REQUEST_URI_NOT_SEEN },
+                                             uri := some REQUEST_URI_NOT_SEEN })
+     let c := { c with inState := .finalize, outNextTxIndex := c.outNextTxIndex + 1 }
+     txStateResponseStart uid c)
+
 /-- htp_connp_RES_IDLE -/
 def resIdle (c : Conn) : R :=
   if c.out.read ≥ c.out.len then (c, .data) else
   let slot : Option Tx := if c.outNextTxIndex < 0 then none else (c.txs[c.outNextTxIndex.toNat]?).join
   match slot with
   | none =>
-    -- "Unable to match response to request"
     let c :=
       if c.inState == .finalize then
         match c.inn.tx with
         | some uid => (txStateRequestComplete cfg uid c).1
         | none => c
       else c
-    let (c, u) := txCreate cfg c
-    (match u with
-     | none => ({ c with out := { c.out with tx := none } }, .error)
-     | some uid =>
-       let c := { c with out := { c.out with tx := some uid } }
-       let c := c.modTx uid (fun t => { t with uriNorm := some { path := some REQUEST_URI_NOT_SEEN },
-                                               uri := some REQUEST_URI_NOT_SEEN })
-       let c := { c with inState := .finalize, outNextTxIndex := c.outNextTxIndex + 1 }
-       txStateResponseStart uid c)
+    resIdleUnmatched cfg c
   | some t =>
     let c := { c with outNextTxIndex := c.outNextTxIndex + 1,
                       out := { c.out with tx := some t.uid, contentLength := -1, bodyDataLeft := -1 } }
@@ -38,6 +41,51 @@ def resIdle (c : Conn) : R :=
 
 /-- is the data pointer handed out by consolidate NULL? (NULL chunk, nothing buffered) -/
 def Dir.consolidatedNull (d : Dir) : Bool := d.buf.isNone && d.curNull
+
+/-- a first line that is not a status line ("treat response line as body"): skipped when more data follows that looks like a
+    status line, else the whole stream becomes a body without headers -/
+def resLineAsBody (uid : Nat) (dataNull : Bool) (data line : Bytes) (chompResult : Nat) (c : Conn) : R :=
+  let nextIsH := (c.out.cur[c.out.read.toNat]? : Option UInt8) == some 0x48
+  let rd1 : Int := c.out.read + 1
+  let ln1 : Int := c.out.len
+  if decide (rd1 < ln1) && (nextIsH || decide (line.length ≤ 2)) then
+    let c := c.modTx uid (fun t => { t with resIgnoredLines := t.resIgnoredLines + 1 })
+    ({ c with out := c.out.clearBuffer }, .ok)
+  else
+    let c := c.modTx uid (fun t => { t with resContentEncodingProcessing := 1 })
+    let c := { c with out := { c.out with consume := c.out.read } }
+    let body := if dataNull then none else some (data.take (line.length + chompResult))
+    let (c, rc) := resProcessBodyData cfg body c
+    let c := { c with out := c.out.clearBuffer }
+    if rc != .ok then (c, rc) else
+    if c.out.len ≤ c.out.read then
+      let c := c.modTx uid (fun t => { t with resTransferCoding := CODING_IDENTITY, resProgress := 3 })
+      ({ c with out := { c.out with bodyDataLeft := -1 }, outState := .finalize }, .ok)
+    else (c, .ok)
+
+/-- the end of a status line (or of the stream) in RES_LINE -/
+def resLineComplete (uid : Nat) (closed : Bool) (c : Conn) : R :=
+  match c.out.consolidate cfg.fieldLimitHard false with
+  | none => (c, .error)
+  | some (d, data) =>
+    let dataNull := c.out.consolidatedNull
+    let c := { c with out := d }
+    if isLineIgnorable cfg data then
+      let c := if closed then { c with outState := .finalize } else c
+      let c := c.modTx uid (fun t => { t with resIgnoredLines := t.resIgnoredLines + 1 })
+      ({ c with out := c.out.clearBuffer }, .ok)
+    else
+      let c := c.modTx uid (fun t => { t with resLine := none, resProtocol := none, resStatus := none, resMessage := none })
+      let (line, chompResult) := chomp data
+      if dataNull || treatResponseLineAsBody line then resLineAsBody cfg uid dataNull data line chompResult c
+      else
+        let rl := parseResponseLine line
+        let c := c.modTx uid (fun t => { t with resLine := some line, resProtocol := rl.protocol,
+                                                resProtocolNumber := rl.protocolNumber, resStatus := rl.status,
+                                                resStatusNumber := rl.statusNumber, resMessage := rl.message })
+        txStateResponseLine uid c >>? fun c =>
+        let c := { c with out := c.out.clearBuffer, outState := .headers }
+        (c.modTx uid (fun t => { t with resProgress := 2 }), .ok)
 
 /-- htp_connp_RES_LINE -/
 def resLineLoop : Nat → Conn → R
@@ -69,45 +117,7 @@ def resLineLoop : Nat → Conn → R
     | .error rc => ({ c with out := (c.out.peekSet).1 }, rc)
     | .ok (c, true) => resLineLoop fuel c
     | .ok (c, false) =>
-    if !(c.out.nextByte == 10 || closed) then resLineLoop fuel c else
-    match c.out.consolidate cfg.fieldLimitHard false with
-    | none => (c, .error)
-    | some (d, data) =>
-      let dataNull := c.out.consolidatedNull
-      let c := { c with out := d }
-      if isLineIgnorable cfg data then
-        let c := if closed then { c with outState := .finalize } else c
-        let c := c.modTx uid (fun t => { t with resIgnoredLines := t.resIgnoredLines + 1 })
-        ({ c with out := c.out.clearBuffer }, .ok)
-      else
-        let c := c.modTx uid (fun t => { t with resLine := none, resProtocol := none, resStatus := none, resMessage := none })
-        let (line, chompResult) := chomp data
-        if dataNull || treatResponseLineAsBody line then
-          let nextIsH := (c.out.cur[c.out.read.toNat]? : Option UInt8) == some 0x48
-          let rd1 : Int := c.out.read + 1
-          let ln1 : Int := c.out.len
-          if decide (rd1 < ln1) && (nextIsH || decide (line.length ≤ 2)) then
-            let c := c.modTx uid (fun t => { t with resIgnoredLines := t.resIgnoredLines + 1 })
-            ({ c with out := c.out.clearBuffer }, .ok)
-          else
-            let c := c.modTx uid (fun t => { t with resContentEncodingProcessing := 1 })
-            let c := { c with out := { c.out with consume := c.out.read } }
-            let body := if dataNull then none else some (data.take (line.length + chompResult))
-            let (c, rc) := resProcessBodyData cfg body c
-            let c := { c with out := c.out.clearBuffer }
-            if rc != .ok then (c, rc) else
-            if c.out.len ≤ c.out.read then
-              let c := c.modTx uid (fun t => { t with resTransferCoding := CODING_IDENTITY, resProgress := 3 })
-              ({ c with out := { c.out with bodyDataLeft := -1 }, outState := .finalize }, .ok)
-            else (c, .ok)
-        else
-          let rl := parseResponseLine line
-          let c := c.modTx uid (fun t => { t with resLine := some line, resProtocol := rl.protocol,
-                                                  resProtocolNumber := rl.protocolNumber, resStatus := rl.status,
-                                                  resStatusNumber := rl.statusNumber, resMessage := rl.message })
-          txStateResponseLine uid c >>? fun c =>
-          let c := { c with out := c.out.clearBuffer, outState := .headers }
-          (c.modTx uid (fun t => { t with resProgress := 2 }), .ok)
+    if !(c.out.nextByte == 10 || closed) then resLineLoop fuel c else resLineComplete cfg uid closed c
 
 def resLine (c : Conn) : R := resLineLoop cfg ((c.out.len - c.out.read).toNat + 3) c
 
@@ -268,23 +278,59 @@ def resFraming (te cl ct : Option Header) (uid : Nat) (c : Conn) : R :=
     else resCl cl ct uid c
   | none => resCl cl ct uid c
 
+/-- a refused CONNECT: the request direction is unblocked and the response side notes to stop at the end of the transaction
+    (finding S36, repaired: a stopped request direction is left alone, like one in error; finding S38, repaired: a 407 now also stops
+    at the end of the transaction, like every other refused CONNECT) -/
+def resRefusedConnect (t : Tx) (c : Conn) : Conn :=
+  if t.methodNumber == M_CONNECT then
+    let c := if c.inn.status != STREAM_ERROR && c.inn.status != STREAM_STOP then { c with inn := { c.inn with status := STREAM_DATA } } else c
+    { c with outDataOtherAtTxEnd := true }
+  else c
+
+/-- 101 Switching Protocols without a body: both directions go into tunnel mode -/
+def resSwitchTunnel (c : Conn) : Conn :=
+  let c := { c with outState := .finalize }
+  let c := if c.inn.status != STREAM_ERROR && c.inn.status != STREAM_STOP then { c with inn := { c.inn with status := STREAM_TUNNEL } } else c
+  { c with out := { c.out with status := STREAM_TUNNEL } }
+
+/-- a 4xx final answer to a request that waits with its body after Expect: 100-continue -/
+def resExpectShortcut (t : Tx) (c : Conn) : Conn :=
+  if t.resStatusNumber ≥ 400 ∧ t.resStatusNumber ≤ 499 ∧ c.inn.contentLength > 0 ∧
+     c.inn.bodyDataLeft == c.inn.contentLength then
+    match getHeaderC t.reqHeaders (b!"expect") with
+    | some e => if Bstr.cmpMemNocase e.value (b!"100-continue") == 0 then { c with inState := .finalize } else c
+    | none => c
+  else c
+
+/-- the no-body cases: HEAD, 1xx / 204 / 304 without framing headers -/
+def resNoBody (uid : Nat) (t : Tx) (te cl : Option Header) (c : Conn) : Conn :=
+  if t.methodNumber == M_HEAD then
+    { c with outState := .finalize }.modTx uid (fun t => { t with resTransferCoding := CODING_NO_BODY })
+  else if (t.resStatusNumber ≥ 100 ∧ t.resStatusNumber ≤ 199) || t.resStatusNumber == 204 || t.resStatusNumber == 304 then
+    if te.isNone && cl.isNone then
+      { c with outState := .finalize }.modTx uid (fun t => { t with resTransferCoding := CODING_NO_BODY })
+    else c
+  else c
+
+/-- content type, then the framing arbitration (unless a no-body case already finished the message) -/
+def resFramingStep (uid : Nat) (t : Tx) (te cl : Option Header) (c : Conn) : R :=
+  if c.outState != .finalize then
+    let ct := getHeaderC t.resHeaders (b!"content-type")
+    let c := match ct with
+      | some ct =>
+        let low := Bstr.toLowercase ct.value
+        c.modTx uid (fun t => { t with resContentType := some (low.takeWhile (fun b => !(isSpace b || b == 0x3b))) })
+      | none => c
+    resFraming te cl ct uid c
+  else (c, .ok)
+
 /-- the part of htp_connp_RES_BODY_DETERMINE after the 2xx-CONNECT shortcut -/
 def resBodyDetermineRest (uid : Nat) (t : Tx) (c : Conn) : R :=
-  let c :=
-    if t.methodNumber == M_CONNECT then
-      -- (finding S36, repaired: a stopped request direction is left alone, like one in error)
-      let c := if c.inn.status != STREAM_ERROR && c.inn.status != STREAM_STOP then { c with inn := { c.inn with status := STREAM_DATA } } else c
-      -- (finding S38, repaired: a 407 now also stops at the end of the transaction, like every other refused CONNECT)
-      { c with outDataOtherAtTxEnd := true }
-    else c
+  let c := resRefusedConnect t c
   let cl := getHeaderC t.resHeaders (b!"content-length")
   let te := getHeaderC t.resHeaders (b!"transfer-encoding")
-  -- 101 Switching Protocols without a body: both directions go into tunnel mode
   if t.resStatusNumber == 101 && te.isNone && cl.isNone then
-    let c := { c with outState := .finalize }
-    let c := if c.inn.status != STREAM_ERROR && c.inn.status != STREAM_STOP then { c with inn := { c.inn with status := STREAM_TUNNEL } } else c
-    let c := { c with out := { c.out with status := STREAM_TUNNEL } }
-    txStateResponseHeaders cfg uid c
+    txStateResponseHeaders cfg uid (resSwitchTunnel c)
   else
   -- interim 100 Continue: forget the headers and expect another status line
   let is100 := t.resStatusNumber == 100 && te.isNone &&
@@ -293,34 +339,7 @@ def resBodyDetermineRest (uid : Nat) (t : Tx) (c : Conn) : R :=
     let c := c.modTx uid (fun t => { t with resHeaders := [], resProgress := 1, seen100 := t.seen100 + 1 })
     ({ c with outState := .line }, .ok)
   else
-  -- a 4xx final answer to a request that waits with its body after Expect: 100-continue
-  let c :=
-    if t.resStatusNumber ≥ 400 ∧ t.resStatusNumber ≤ 499 ∧ c.inn.contentLength > 0 ∧
-       c.inn.bodyDataLeft == c.inn.contentLength then
-      match getHeaderC t.reqHeaders (b!"expect") with
-      | some e => if Bstr.cmpMemNocase e.value (b!"100-continue") == 0 then { c with inState := .finalize } else c
-      | none => c
-    else c
-  -- no-body cases
-  let c :=
-    if t.methodNumber == M_HEAD then
-      { c with outState := .finalize }.modTx uid (fun t => { t with resTransferCoding := CODING_NO_BODY })
-    else if (t.resStatusNumber ≥ 100 ∧ t.resStatusNumber ≤ 199) || t.resStatusNumber == 204 || t.resStatusNumber == 304 then
-      if te.isNone && cl.isNone then
-        { c with outState := .finalize }.modTx uid (fun t => { t with resTransferCoding := CODING_NO_BODY })
-      else c
-    else c
-  let r : R :=
-    if c.outState != .finalize then
-      let ct := getHeaderC t.resHeaders (b!"content-type")
-      let c := match ct with
-        | some ct =>
-          let low := Bstr.toLowercase ct.value
-          c.modTx uid (fun t => { t with resContentType := some (low.takeWhile (fun b => !(isSpace b || b == 0x3b))) })
-        | none => c
-      resFraming te cl ct uid c
-    else (c, .ok)
-  r >>? fun c => txStateResponseHeaders cfg uid c
+  resFramingStep uid t te cl (resNoBody uid t te cl (resExpectShortcut t c)) >>? fun c => txStateResponseHeaders cfg uid c
 
 /-- htp_connp_RES_BODY_DETERMINE: a 2xx answer to CONNECT wraps the transaction up at once (the request side probes the tunnel);
     everything else is `resBodyDetermineRest` -/
@@ -553,6 +572,12 @@ def resDriverLoop (isGap : Bool) : Nat → Conn → Conn × Nat
         else ({ c with out := { c.out with status := STREAM_DATA_OTHER } }, STREAM_DATA_OTHER)
       else ({ c with out := { c.out with status := STREAM_ERROR } }, STREAM_ERROR)
 
+/-- "Store the current chunk information" + htp_conn_track_outbound_data -/
+def resStoreChunk (data : Option Bytes) (len : Nat) (c : Conn) : Conn :=
+  { c with out := { c.out with cur := data.getD [], curNull := data.isNone, len := len, read := 0, consume := 0,
+                               receiver := 0, live := true },
+           outDataCounter := c.outDataCounter + len }
+
 /-- htp_connp_res_data -/
 def resDataCore (data : Option Bytes) (len : Nat) (c : Conn) : Conn × Nat :=
   if c.out.status == STREAM_STOP then (c, STREAM_STOP) else
@@ -560,9 +585,7 @@ def resDataCore (data : Option Bytes) (len : Nat) (c : Conn) : Conn × Nat :=
   if c.out.tx.isNone && c.outState != .idle then
     ({ c with out := { c.out with status := STREAM_ERROR } }, STREAM_ERROR) else
   if len == 0 && c.out.status != STREAM_CLOSED then (c, STREAM_CLOSED) else
-  let c := { c with out := { c.out with cur := data.getD [], curNull := data.isNone, len := len, read := 0, consume := 0,
-                                        receiver := 0, live := true },
-                    outDataCounter := c.outDataCounter + len }
+  let c := resStoreChunk data len c
   if c.out.status == STREAM_TUNNEL then (c, STREAM_TUNNEL) else
   resDriverLoop cfg (data.isNone && len > 0) (8 * len + 64) c
 
